@@ -372,6 +372,8 @@ func (t *Trans) applyContract(fr *Frame, c *Contract, cname string, sig *types.S
 	for _, g := range c.Ghosts {
 		if v, ok := fr.ghosts[g.Name]; ok {
 			sc.names[g.Name] = specVal{v, nil}
+		} else if v, ok := t.ghostBinding(fr, cname, g.Name); ok {
+			sc.names[g.Name] = specVal{v, nil}
 		} else {
 			k := t.freshConst(g.Sort.String(), "ghost_"+g.Name)
 			freshGhosts = append(freshGhosts, k)
@@ -804,4 +806,23 @@ func (t *Trans) sprintfTerm(fr *Frame, argVals []ssa.Value) (string, bool) {
 		term = fmt.Sprintf("(scat %s %s)", term, p)
 	}
 	return t.define("Str", "sprintf", term), true
+}
+
+// ghostBinding: the contract of the function under verification may say how a callee's ghost
+// parameter is instantiated at its call sites:  extra bind (<callee> <ghost> <expr>)
+func (t *Trans) ghostBinding(fr *Frame, callee, ghost string) (string, bool) {
+	if t.topC == nil {
+		return "", false
+	}
+	for _, b := range t.topC.Extra["bind"] {
+		if !b.IsL || len(b.List) != 3 {
+			continue
+		}
+		if b.List[1].Atom != ghost || !strings.HasSuffix(callee, b.List[0].Atom) {
+			continue
+		}
+		sc := &SpecCtx{t: t, fr: fr, st: fr.st, old: fr.entrySt, at: fr.curBlock}
+		return sc.expand(b.List[2]), true
+	}
+	return "", false
 }
